@@ -32,10 +32,10 @@ const DIRS: &[(&str, &str)] = &[
     ("-- a note\n", "other"),
 ];
 
-fn make(r: &mut Rng, id: usize, luau: bool) -> It {
+fn make(r: &mut Rng, id: usize, luau: bool, force_require: bool) -> It {
     let name = NAMES[r.below(NAMES.len())].to_string();
     let name = if name == "É" && !luau { "E".to_string() } else { name };
-    let k = r.below(12);
+    let k = if force_require { r.below(5) } else { r.below(12) };
     let (kind, text, multi): (char, String, usize) = match k {
         0..=4 => ('r', format!("local {} = require(\"m{}\")", name, id), 1),
         5 => ('r', format!("local {}   =   require  \"m{}\"", name, id), 1),
@@ -163,14 +163,25 @@ pub fn run(tier: &str, seed: u64) -> Sink {
         let mut sink = Sink::default();
         let mut r = Rng::new(seed.wrapping_mul(7919) ^ (i as u64) ^ 0xC12);
         let luau = r.chance(1, 4);
-        let len = 2 + r.below(7);
-        let mut items: Vec<It> = (0..len).map(|k| make(&mut r, i * 16 + k, luau)).collect();
+        // one program in 25 is a single long require block (sorting algorithms change behaviour with the length;
+        // with 12 names duplicates are certain, so stability is observable)
+        let long = i % 25 == 7;
+        let len = if long { 21 + r.below(20) } else { 2 + r.below(7) };
+        let mut items: Vec<It> = (0..len).map(|k| make(&mut r, i * 64 + k, luau, long)).collect();
         // occasionally a same-line leading block comment (travels with its statement)
         if r.chance(1, 8) {
             let k = r.below(items.len());
             items[k].text = format!("--[[c{}]] {}", items[k].id, items[k].text);
         }
         items[0].blank_before = false;
+        if long {
+            // one contiguous group: no blank lines, no directives
+            for it in items.iter_mut() {
+                it.blank_before = false;
+                it.lead.clear();
+                it.lines.clear();
+            }
+        }
         let b = build(&items);
         let syntax = if luau { LuaVersion::Luau } else { LuaVersion::Lua51 };
         if !parses(&b.text, syntax) {
